@@ -17,6 +17,7 @@
 
 #include "fastscapelib/utils/iterators.hpp"
 #include "fastscapelib/utils/containers.hpp"
+#include "fastscapelib/utils/verif_hooks.hpp"
 
 
 namespace fastscapelib
@@ -660,6 +661,7 @@ namespace fastscapelib
         const auto& n_count = neighbors_count(idx);
         const auto& n_indices = get_nb_indices_from_cache(idx);
         const auto& n_distances = neighbors_distances_impl(idx);
+        FSL_VERIF_POINT(verif::g_neighbors, this, idx, &n_indices);
 
         if (neighbors.size() != n_count)
         {
